@@ -29,6 +29,10 @@ type e2ePair struct {
 
 func openPair(c *Ctx, pc pairCfg, rechunk bool) (*e2ePair, error) {
 	sh, ch := &recHandler{}, &recHandler{}
+	if pc.parallel {
+		// a handler goroutine owns its message until it closes it: it may look at it late, while later messages arrive
+		sh.lateRead, ch.lateRead = 300*time.Microsecond, 300*time.Microsecond
+	}
 	sopt := &gws.ServerOption{PermessageDeflate: pc.sPMD, CheckUtf8Enabled: pc.utf8, ParallelEnabled: pc.parallel, ParallelGolimit: 4, ReadMaxPayloadSize: pc.rlimit, WriteMaxPayloadSize: pc.wlimit}
 	copt := &gws.ClientOption{PermessageDeflate: pc.cPMD, CheckUtf8Enabled: pc.utf8, ParallelEnabled: pc.parallel, ParallelGolimit: 4, ReadMaxPayloadSize: pc.rlimit, WriteMaxPayloadSize: pc.wlimit}
 	srv, cli, stap, ctap, err := gwsPair(sopt, copt, sh, ch)
@@ -289,6 +293,18 @@ func runC01(c *Ctx) error {
 						break
 					}
 					c.count(tag+" all", true, "apis=all")
+					// (4) parallel handling: several fragmented messages in a row while the handlers of the earlier ones still run
+					if parallel {
+						var fops []sendOp
+						for k := 0; k < 4; k++ {
+							pl := bytes.Repeat([]byte{byte('A' + k)}, 300+50*k)
+							fops = append(fops, sendOp{API: "file", Opcode: 2, Reader: newChunkReader(splitEven(pl, 3), "sep")})
+						}
+						if !e2eDirection(c, p, fromServer, fops, parallel, tag+" streamed-in-a-row", false, 0, pc.utf8) {
+							break
+						}
+						c.count(tag+" streamed-in-a-row", true, "apis=streamed-in-a-row")
+					}
 					// (3) every length-encoding / segment boundary once per pair and direction, through rotating APIs
 					if r == 0 && !parallel {
 						var bops []sendOp
